@@ -289,6 +289,14 @@ data.  The model's allocation bound is stated against `remain`; this fact and th
 cover the gap between announced and received. -/
 theorem source_arrays_grow : Gen.arraysGrow = true := by decide
 
+/-- the same for strings and bytes (fact G9, C20-D33: `decoder.read` no longer allocates an announced length beyond 64 KiB ahead of
+the data) -/
+theorem source_reads_grow : Gen.readsGrow = true := by decide
+
+/-- the tagged-field loops stop at the first decoder error (fact G10, C20-D34): the model's short-circuit at the first error
+(`Res.bind`) is what the code does, also for a count inside a lying frame size -/
+theorem source_tag_loops_stop : Gen.tagLoopsStop = true := by decide
+
 /-- C20 for the code as it is now -/
 theorem readResponse_total_source (flex : Bool) (t : Ty) (stream : Bytes) :
     Safe (readResponse Gen.decoderCfg flex t stream) :=
